@@ -715,6 +715,20 @@ class UnitInterp:
                 return base
             if f.attr in ("append", "extend"):
                 return Bare("none")
+            if isinstance(base, Un):
+                if f.attr == "simplify" and not e.args:
+                    return base  # same unit, other spelling
+                if f.attr == "as_coeff_unit" and not e.args:
+                    # (numeric coefficient, unit without it): the second element alone is NOT the unit any more
+                    rest = base.mono * Mono.atom("COEFFICIENT-SPLIT-OFF")
+                    return Tup([Bare("data"), Un(rest)])
+                if f.attr in ("get_base_equivalent", "get_cgs_equivalent", "get_mks_equivalent"):
+                    return Un(base.mono * Mono.atom("SCALE-CHANGED"))
+            if isinstance(base, Bare) and not base.kind.startswith(("global:", "class:", "attr:")) and base.kind in ("data",):
+                # a method of a bare ndarray returns bare data (ndarray.dot, .sum, .take, ...)
+                for a in e.args:
+                    self.ev(fn, a, st, depth)
+                return Bare("data", base.origin or "numpy")
             if isinstance(base, Bare) and base.kind.startswith("global:np") or ftxt.startswith(("np.", "numpy.")):
                 for a in e.args:
                     self.ev(fn, a, st, depth)
